@@ -44,3 +44,26 @@ package miner
 //@   loop #1 invariant round-state: bestQuality != nil && pocTemplate != nil && usable(proofs)
 //@   loop #2 invariant slot-state: bestQuality != nil && i == workSlot && usable(proofs)
 //@   loop #3 invariant best-so-far: -1 <= #rangeindex && #rangeindex < len(qualities) && bestQuality != nil && (forall j int :: 0 <= j && j <= #rangeindex ==> bigv[qualities[j]] <= bigv[bestQuality]) && (bigv[bestQuality] > 0 ==> 0 <= bestProofIndex && bestProofIndex <= #rangeindex && qualities[bestProofIndex] == bestQuality) && bigv[bestQuality] >= 0
+
+//@ func assembleFullBlock
+//@   assert-at call GetTarget target-at-the-winning-time: arg0 == deref(tProof.time)
+//@   assert-at call GetCoinbase coinbase-for-the-winning-proof: unbox("*engine.WorkSpaceProof", arg0) == tProof.proof && arg1 == deref(blockTemplate.TotalFee)
+//@   ensures the-template-block: err == nil ==> result0 == old(blockTemplate.Block)
+//@   ensures header-time-is-the-winning-time: err == nil ==> deref(result0.Header.Timestamp) == old(deref(tProof.time))
+//@   ensures header-target-at-that-time: err == nil ==> result0.Header.Target == lastresult("GetTarget")
+//@   ensures header-challenge-of-the-template: err == nil ==> result0.Header.Challenge == old(pocTemplate.Challenge)
+//@   ensures header-key-and-proof-of-the-winner: err == nil ==> unbox("*pocec.PublicKey", result0.Header.PubKey) == old(tProof.proof.PublicKey) && unbox("*poc.DefaultProof", result0.Header.Proof) == old(tProof.proof.Proof)
+
+//@ func (*PoCMiner).submitBlock
+//@   requires block != nil && m.chain != nil
+//@   assert-at call ProcessBlock not-before-the-block-timestamp: lastresult("After") && arg1 == block
+//@   assert-at call After compares-now-with-the-header-timestamp: arg0 == lastresult("Now")
+//@   ensures accepted-height-recorded: result ==> has(m.minedHeight, lastresult("Height#4"))
+
+//@ func (*PoCMiner).solveBlock
+//@   requires m.chain != nil && m.SpaceKeeper != nil
+//@   assert-at call getBestProof best-proof-for-the-received-template: arg1 == quit && arg0 == pocTemplate
+//@   assert-at call getBestProof not-a-height-already-mined: m.minedHeight == nil || !has(m.minedHeight, pocTemplate.Height)
+//@   assert-at call assembleFullBlock block-from-both-templates-and-the-winning-proof: arg2 == lastresult("getBestProof")
+//@   assert-at call SignHash header-hash-signed-with-the-winning-space: arg1 == lastresult("getBestProof").proof.SpaceID && arg2 == lastresult("PoCHash")
+//@   assert-at return#-1 signed-block-returned: result0 == lastresult("assembleFullBlock") && unbox("*pocec.Signature", result0.Header.Signature) == lastresult("SignHash") && result2 == nil
